@@ -96,6 +96,7 @@ def disciplinedFact (m : MethodFact) : Bool :=
   (m.lock == "Lock" || m.lock == "RLock") && m.deferUnlock &&
   (m.lock != "RLock" || m.sharedWrites == 0) && m.returnsLive == 0 &&
   m.lockOps == 2 &&   -- the lock and its deferred unlock only: the critical section is never left early
+  m.reentrant == 0 && -- no call back into a locking method of the same table (RWMutex is not re-entrant)
   (m.typ == "RibTable" || !m.callsRib)
 
 /-- the operations the property names must all be present in the table (a renamed or removed
